@@ -20,6 +20,8 @@ DelOps  == {Op("del", 0, 0, 0, "-", "-")}
 ReadOps == {Op("read", i, c, 0, "-", "-") : i \in 0..NP, c \in 0..1}
 TouchOps == {Op("touch", i, 0, 0, "-", "-") : i \in Piece}
 
+\* the kernel refuses the buffer (mmap fails): only for pieces of 128 KiB or more, which are mapped
+AddNoMem == {Op("add", 0, c, 1, "good", "nomem") : c \in 0..1}
 \* the legal first chunk of a block is inside the piece
 LegalAdd == {o \in AddOps : o.c \in Chunks(o.i)}
 LegalRead == {o \in ReadOps : o.i = NP \/ o.c \in Chunks(o.i)}
@@ -42,6 +44,8 @@ RaceOp(t) == CASE t = t1 -> Op("fin", 1, 0, 0, "right", "-")
 MCOpsDelRace == {RaceOp(t) : t \in {t1, t2, t3, t4}}
 RaceAssigned == \A t \in Threads : pc[t] # "idle" => op[t] = RaceOp(t)
 MCInitRace == {"empty", "fullgood"}
+MCOpsNoMem == {o \in AddNoMem : o.c \in Chunks(o.i)} \cup {o \in LegalAdd : o.n = 1 /\ o.q = "good"} \cup {o \in FinOps : o.q = "right"}
+              \cup {o \in ExpOps : o.n = 0} \cup DelOps
 MCInitAll  == {"empty", "partial", "fullgood", "fullbad", "complete"}
 IdRank == [k \in 1..NP |-> k - 1]
 MCRankId == {IdRank}
